@@ -415,7 +415,7 @@ class Net(object):
         self.listeners = {}
         self.delivery_mode = 'random'
         self.latency = 0.0
-        self.connect_fault = None    # None | 'refused' | 'timeout'
+        self.connect_fault = None    # None | 'refused' | 'timeout' | 'netunreach' | 'hostunreach' | 'addrnotavail' | 'gaierror' | 'emfile'
         self.on_connect = None       # observer fn(client_sock, server_sock, addr)
 
     def socket(self, family=AF_INET, type_=SOCK_STREAM, proto=0):
@@ -458,6 +458,16 @@ class Net(object):
         sim.log('connect', sock.name, addr)
         fault = self.connect_fault
         hang = fault == 'timeout' or addr in getattr(self, 'hang_addrs', ())
+        # the other ways a connect() fails: OSErrors that are no ConnectionError
+        other = {'netunreach': lambda: OSError(errno.ENETUNREACH, 'Network is unreachable'),
+                 'hostunreach': lambda: OSError(errno.EHOSTUNREACH, 'No route to host'),
+                 'addrnotavail': lambda: OSError(errno.EADDRNOTAVAIL,
+                                                 'Cannot assign requested address'),
+                 'gaierror': lambda: _realsocket.gaierror(-2, 'Name or service not known'),
+                 'emfile': lambda: OSError(errno.EMFILE, 'Too many open files')}
+        if fault in other:
+            sim.bump('net.connect_' + fault)
+            raise other[fault]()
         if not hang and (fault == 'refused' or addr not in self.listeners):
             sim.bump('net.connect_refused')
             raise ConnectionRefusedError(errno.ECONNREFUSED, 'Connection refused')
@@ -650,6 +660,164 @@ class SimLock(object):
         self.release()
 
 
+class SimRLock(object):
+    """Re-entrant lock; the owner is the simulator task (or the driver) that holds it."""
+
+    def __init__(self, sim):
+        self.sim = sim
+        self.owner = None
+        self.count = 0
+
+    def _me(self):
+        return self.sim.current if self.sim.in_task() else 'driver'
+
+    def _free_for(self, me):
+        return self.owner is None or self.owner is me
+
+    def acquire(self, blocking=True, timeout=-1):
+        me = self._me()
+        if not self._free_for(me):
+            if not blocking:
+                return False
+            self.sim.wait(lambda: self._free_for(me), None if timeout in (-1, None) else timeout,
+                          'rlock')
+            if not self._free_for(me):
+                return False
+        self.owner = me
+        self.count += 1
+        return True
+
+    def release(self):
+        if self.owner is not self._me():
+            raise RuntimeError('cannot release un-acquired lock')
+        self.count -= 1
+        if self.count == 0:
+            self.owner = None
+
+    def locked(self):
+        return self.owner is not None
+
+    def _is_owned(self):
+        return self.owner is self._me()
+
+    def _release_save(self):
+        state = (self.owner, self.count)
+        self.owner, self.count = None, 0
+        return state
+
+    def _acquire_restore(self, state):
+        me = state[0]
+        self.sim.wait(lambda: self.owner is None, None, 'rlock')
+        self.owner, self.count = state
+
+    def __enter__(self):
+        self.acquire()
+        return self
+
+    def __exit__(self, *a):
+        self.release()
+
+
+class SimCondition(object):
+    """threading.Condition look-alike: waiters are woken in FIFO order, in virtual time."""
+
+    def __init__(self, sim, lock=None):
+        self.sim = sim
+        self._lock = lock if lock is not None else SimRLock(sim)
+        self._waiters = []
+        self.acquire = self._lock.acquire
+        self.release = self._lock.release
+
+    def __enter__(self):
+        self._lock.acquire()
+        return self
+
+    def __exit__(self, *a):
+        self._lock.release()
+
+    def _owned(self):
+        if hasattr(self._lock, '_is_owned'):
+            return self._lock._is_owned()
+        return self._lock.locked()
+
+    def wait(self, timeout=None):
+        if not self._owned():
+            raise RuntimeError('cannot wait on un-acquired lock')
+        token = [False]
+        self._waiters.append(token)
+        if hasattr(self._lock, '_release_save'):
+            state = self._lock._release_save()
+        else:
+            state = None
+            self._lock.release()
+        try:
+            self.sim.wait(lambda: token[0], timeout, 'cond.wait')
+        finally:
+            if token in self._waiters:
+                self._waiters.remove(token)
+            if state is not None:
+                self._lock._acquire_restore(state)
+            else:
+                self._lock.acquire()
+        return token[0]
+
+    def wait_for(self, predicate, timeout=None):
+        end = None if timeout is None else self.sim.now + timeout
+        result = predicate()
+        while not result:
+            left = None
+            if end is not None:
+                left = end - self.sim.now
+                if left <= 0:
+                    break
+            self.wait(left)
+            result = predicate()
+        return result
+
+    def notify(self, n=1):
+        if not self._owned():
+            raise RuntimeError('cannot notify on un-acquired lock')
+        for token in self._waiters[:n]:
+            token[0] = True
+        del self._waiters[:n]
+
+    def notify_all(self):
+        self.notify(len(self._waiters))
+
+    notifyAll = notify_all
+
+
+class SimSemaphore(object):
+    def __init__(self, sim, value=1, bound=None):
+        if value < 0:
+            raise ValueError('semaphore initial value must be >= 0')
+        self.sim = sim
+        self._value = value
+        self._bound = bound
+
+    def acquire(self, blocking=True, timeout=None):
+        if self._value <= 0:
+            if not blocking:
+                return False
+            self.sim.wait(lambda: self._value > 0, timeout, 'semaphore')
+            if self._value <= 0:
+                return False
+        self._value -= 1
+        return True
+
+    def release(self, n=1):
+        if self._bound is not None and self._value + n > self._bound:
+            raise ValueError('Semaphore released too many times')
+        self._value += n
+
+    def __enter__(self):
+        self.acquire()
+        return self
+
+    def __exit__(self, *a):
+        self.release()
+
+
 def make_sim_thread_class(sim, on_start=None):
     """threading.Thread look-alike whose start() makes a simulator task (for threads that the
     code under test starts itself, e.g. socketserver's per-connection threads)."""
@@ -700,9 +868,7 @@ class ThreadingNS(object):
         self.sim = sim
         self._real = real
         self.Thread = thread_cls or real.Thread
-        self.Condition = real.Condition
-        self.Semaphore = real.Semaphore
-        self.Timer = real.Timer
+        self._sim_thread = thread_cls or make_sim_thread_class(sim)
         self.local = real.local
         self.current_thread = real.current_thread
         self.get_ident = real.get_ident
@@ -714,7 +880,28 @@ class ThreadingNS(object):
         return SimLock(self.sim)
 
     def RLock(self):  # noqa: N802
-        return SimLock(self.sim)
+        return SimRLock(self.sim)
+
+    def Condition(self, lock=None):  # noqa: N802
+        return SimCondition(self.sim, lock)
+
+    def Semaphore(self, value=1):  # noqa: N802
+        return SimSemaphore(self.sim, value)
+
+    def BoundedSemaphore(self, value=1):  # noqa: N802
+        return SimSemaphore(self.sim, value, bound=value)
+
+    def Timer(self, interval, function, args=None, kwargs=None):  # noqa: N802
+        sim = self.sim
+        cancelled = SimEvent(sim)
+
+        def body():
+            sim.wait(cancelled.is_set, interval, 'timer')
+            if not cancelled.is_set():
+                function(*(args or ()), **(kwargs or {}))
+        t = self._sim_thread(target=body, name='timer')
+        t.cancel = cancelled.set
+        return t
 
 
 class SocketNS(object):
